@@ -796,12 +796,12 @@ const API: &[(&str, &[&str])] = &[
         "inline_datum_and_script_ref", "datum_hash_and_script_ref"]),
     ("TransactionOutputs", &["list"]),
     ("TransactionBody", &["minimal", "all_conway_fields", "random_subset", "nv_update_field", "nv_zero_donation",
-        "nv_empty_collections"]),
+        "empty_collections"]),
     ("Vkeywitness", &["basic"]),
     ("Vkeywitnesses", &["basic"]),
     ("BootstrapWitness", &["basic"]),
     ("BootstrapWitnesses", &["basic"]),
-    ("TransactionWitnessSet", &["vkeys_only", "everything", "random_subset", "empty", "nv_empty_bootstraps", "nv_empty_redeemers"]),
+    ("TransactionWitnessSet", &["vkeys_only", "everything", "random_subset", "empty", "empty_bootstraps", "empty_redeemers"]),
     ("Transaction", &["minimal", "with_aux", "full"]),
 ];
 
@@ -996,9 +996,9 @@ fn api(ty: &str, label: &str, k: u64) -> Option<Vec<u8>> {
             b.to_bytes()
         }
         ("TransactionBody", "nv_zero_donation") => { let m = g.r.next() & g.r.next() & ALL_BODY & !(1 << 16); let mut b = g.body(m); b.set_donation(&bn(0)); b.to_bytes() }
-        ("TransactionBody", "nv_empty_collections") => {
+        ("TransactionBody", "empty_collections") => {
             let mut b = g.body(0);
-            let which = if k == 0 { 0xff } else { g.range(1, 0xff) };
+            let which = if k == 0 { 0xff } else if k <= 8 { 1u64 << (k - 1) } else { g.range(1, 0xff) };
             if which & 1 != 0 { b.set_certs(&Certificates::new()); }
             if which & 2 != 0 { b.set_withdrawals(&Withdrawals::new()); }
             if which & 4 != 0 { b.set_mint(&Mint::new()); }
@@ -1017,8 +1017,8 @@ fn api(ty: &str, label: &str, k: u64) -> Option<Vec<u8>> {
         ("TransactionWitnessSet", "everything") => g.witness_set(ALL_WITS).to_bytes(),
         ("TransactionWitnessSet", "random_subset") => { let m = g.r.next() & ALL_WITS; g.witness_set(m).to_bytes() }
         ("TransactionWitnessSet", "empty") => TransactionWitnessSet::new().to_bytes(),
-        ("TransactionWitnessSet", "nv_empty_bootstraps") => { let m = g.r.next() & ALL_WITS & !4; let mut w = g.witness_set(m); w.set_bootstraps(&BootstrapWitnesses::new()); w.to_bytes() }
-        ("TransactionWitnessSet", "nv_empty_redeemers") => { let m = g.r.next() & ALL_WITS & !128; let mut w = g.witness_set(m); w.set_redeemers(&Redeemers::new()); w.to_bytes() }
+        ("TransactionWitnessSet", "empty_bootstraps") => { let m = g.r.next() & ALL_WITS & !4; let mut w = g.witness_set(m); w.set_bootstraps(&BootstrapWitnesses::new()); w.to_bytes() }
+        ("TransactionWitnessSet", "empty_redeemers") => { let m = g.r.next() & ALL_WITS & !128; let mut w = g.witness_set(m); w.set_redeemers(&Redeemers::new()); w.to_bytes() }
         ("Transaction", "minimal") => { let m = g.r.next() & g.r.next() & ALL_BODY; let b = g.body(m); let mut t = Transaction::new(&b, &g.witness_set(1), None); if k % 4 == 3 { t.set_is_valid(false); } t.to_bytes() }
         ("Transaction", "with_aux") => {
             let (bm, wm, ak) = (g.r.next() & ALL_BODY, g.r.next() & ALL_WITS, g.below(7));
@@ -1210,7 +1210,7 @@ fn bound(ty: &str, label: &str, k: u64) -> Option<Result<Vec<u8>, ()>> {
 // ------------------------------------------------------------------------------------------------
 // stream 3: TransactionBuilder scenarios
 #[derive(Default)]
-struct Feat { v: Vec<&'static str> }
+struct Feat { v: Vec<&'static str>, given: Vec<Vec<u8>> }   // given: the Values handed to the builder (inputs, collateral inputs, requested outputs)
 impl Feat {
     fn set(&mut self, s: &'static str) { if !self.v.contains(&s) { self.v.push(s); } }
     fn line(&self, ok: bool) -> String { let mut s = String::from(if ok { "ok" } else { "fail" }); for f in &self.v { s.push(','); s.push_str(f); } s }
@@ -1240,6 +1240,20 @@ fn ma_of(pols: &[Policy], m: &Holdings) -> MultiAsset {
     let mut ma = MultiAsset::new();
     for ((p, a), q) in m { if *q > 0 { ma.set_asset(&pols[*p].id, &pols[*p].names[*a], &bn(*q)); } }
     ma
+}
+/// the same value with degenerate entries added: a zero-quantity asset under one of its policies (or a fresh one) and/or
+/// an empty policy bundle (what Assets::insert(name, 0) / MultiAsset::insert(policy, Assets::new()) admit)
+fn degenerate_value(v: &Value, g: &mut G, pols: &[Policy]) -> Value {
+    let mut ma = v.multiasset().unwrap_or(MultiAsset::new());
+    let how = 1 + g.below(3);
+    if how & 1 != 0 {
+        let name = g.asset_name();
+        let pid = if !pols.is_empty() && g.chance(2, 3) { pols[g.below(pols.len() as u64) as usize].id.clone() } else { g.sh() };
+        // never overwrite a real holding
+        if ma.get_asset(&pid, &name).is_zero() { ma.set_asset(&pid, &name, &bn(0)); }
+    }
+    if how & 2 != 0 { let pid = g.sh(); if ma.get(&pid).is_none() { ma.insert(&pid, &Assets::new()); } }
+    Value::new_with_assets(&v.coin(), &ma)
 }
 fn value_of(coin: u64, pols: &[Policy], m: &Holdings) -> Value {
     let ma = ma_of(pols, m);
@@ -1322,6 +1336,12 @@ fn tx_scenario(k: u64, f: &mut Feat) -> Result<Transaction, JsError> {
     let g = &mut g;
     #[cfg(csl_verif)]
     { let script: Vec<u64> = (0..600).map(|_| g.r.next()).collect(); cardano_serialization_lib::verif_hooks::verif_set_rng_script(Some(script)); }
+
+    // ---- degenerate histories (a third of the scenarios): bit 0 mint history with a net-zero / partly cancelled line,
+    // 1 inputs carrying zero-quantity assets / empty bundles, 2 an output requested with such a value, 3 sub-builders set but
+    // empty, 4 collateral inputs with degenerate values, 5 the whole surplus taken as fee (change exactly zero)
+    let degen: u64 = if g.chance(1, 3) { let m = g.r.next() & 63; if m == 0 { 1 } else { m } } else { 0 };
+    if degen != 0 { f.set("degenerate"); }
 
     // ---- configuration ----
     let with_assets = g.chance(7, 10);
@@ -1412,6 +1432,37 @@ fn tx_scenario(k: u64, f: &mut Feat) -> Result<Transaction, JsError> {
         if any { tb.set_mint_builder(&mb); f.set("mint"); }
     }
 
+    // ---- degenerate mint histories on a fresh policy (several add_asset / set_asset calls on the same line) ----
+    if degen & 1 != 0 {
+        let mut mb = tb.get_mint_builder().unwrap_or(MintBuilder::new());
+        let script = g.policy_script();
+        let names = vec![g.asset_name(), { let mut n = g.asset_name(); while n.name().is_empty() { n = g.asset_name(); } n }];
+        let names = if names[0] == names[1] { vec![names[0].clone()] } else { names };
+        pols.push(Policy { id: script.hash(), script, names });
+        let p = pols.len() - 1;
+        let wit = MintWitness::new_native_script(&NativeScriptSource::new(&pols[p].script));
+        let q = 1 + g.edge() % (1u64 << 40);
+        let r = 1 + g.edge() % (1u64 << 40);
+        let (pos, neg) = (|x: u64| Int::new(&bn(x)), |x: u64| Int::new_negative(&bn(x)));
+        let n0 = pols[p].names[0].clone();
+        let n1 = pols[p].names[pols[p].names.len() - 1].clone();
+        let last = pols[p].names.len() - 1;
+        match g.below(6) {
+            0 => { mb.add_asset(&wit, &n0, &pos(q))?; mb.add_asset(&wit, &n0, &neg(q))?; }                                  // net zero
+            1 => { mb.add_asset(&wit, &n0, &pos(q))?; mb.add_asset(&wit, &n0, &neg(q))?; mb.add_asset(&wit, &n0, &pos(r))?;
+                   *avail.entry((p, 0)).or_insert(0) += r; }
+            2 => { mb.add_asset(&wit, &n0, &pos(q))?; mb.add_asset(&wit, &n0, &pos(r))?; mb.add_asset(&wit, &n0, &neg(q))?;
+                   *avail.entry((p, 0)).or_insert(0) += r; }
+            3 => { mb.set_asset(&wit, &n0, &pos(q))?; mb.add_asset(&wit, &n0, &neg(q))?; }                                  // net zero after a set
+            4 => { mb.add_asset(&wit, &n0, &pos(q))?; *avail.entry((p, 0)).or_insert(0) += q;                               // one live line, one cancelled
+                   if last != 0 { mb.add_asset(&wit, &n1, &pos(r))?; mb.add_asset(&wit, &n1, &neg(r))?; } }
+            _ => { mb.add_asset(&wit, &n0, &pos(q))?; mb.add_asset(&wit, &n0, &neg(q / 2 + 1))?;                            // mint, then burn part of it
+                   if q > q / 2 + 1 { *avail.entry((p, 0)).or_insert(0) += q - (q / 2 + 1); } }
+        }
+        tb.set_mint_builder(&mb);
+        f.set("degenerate_mint");
+    }
+
     // ---- outputs ----
     let n_out = g.range(1, 4);
     let mut outs_have_assets = false;
@@ -1464,7 +1515,16 @@ fn tx_scenario(k: u64, f: &mut Feat) -> Result<Transaction, JsError> {
             g.r = save;
             mk(min + extra, g, f)
         };
+        let out = if degen & 4 != 0 && g.chance(1, 2) {
+            f.set("degenerate_requested_output");
+            let mut o = TransactionOutput::new(&out.address(), &degenerate_value(&out.amount(), g, &pols));
+            if let Some(d) = out.data_hash() { o.set_data_hash(&d); }
+            // room for the larger value
+            let v = o.amount(); let c = u64::from(v.coin()) + ADA;
+            let mut v2 = v.clone(); v2.set_coin(&bn(c)); TransactionOutput::new(&out.address(), &v2)
+        } else { out };
         need += u64::from(out.amount().coin());
+        f.given.push(out.amount().to_bytes());
         tb.add_output(&out)?;
     }
 
@@ -1515,6 +1575,8 @@ fn tx_scenario(k: u64, f: &mut Feat) -> Result<Transaction, JsError> {
             let h = if with_assets && g.chance(1, 4) { g.pick_assets(&pols, small_mvs) } else { Holdings::new() };
             for (key, q) in &h { *ch.entry(*key).or_insert(0) += q; }
             let v = value_of(coin, &pols, &h);
+            let v = if degen & 16 != 0 { f.set("degenerate_collateral"); degenerate_value(&v, g, &pols) } else { v };
+            f.given.push(v.to_bytes());
             if g.chance(1, 2) { ib.add_key_input(&g.kh(), &g.tx_in(), &v); } else { ib.add_regular_input(&g.key_address(), &g.tx_in(), &v)?; }
         }
         tb.set_collateral(&ib);
@@ -1580,6 +1642,17 @@ fn tx_scenario(k: u64, f: &mut Feat) -> Result<Transaction, JsError> {
         tb.set_voting_builder(&vb);
         f.set("votes");
     }
+    if degen & 8 != 0 {
+        // sub-builders attached but left empty (an application that always attaches them)
+        if !f.v.contains(&"certs") { tb.set_certs_builder(&CertificatesBuilder::new()); }
+        if !f.v.contains(&"withdrawals") { tb.set_withdrawals_builder(&WithdrawalsBuilder::new()); }
+        if !f.v.contains(&"voting_proposals") { tb.set_voting_proposal_builder(&VotingProposalBuilder::new()); }
+        if !f.v.contains(&"votes") { tb.set_voting_builder(&VotingBuilder::new()); }
+        if tb.get_mint_builder().is_none() { tb.set_mint_builder(&MintBuilder::new()); }
+        if !f.v.contains(&"collateral") { tb.set_collateral(&TxInputsBuilder::new()); }
+        if !f.v.contains(&"metadata") && g.chance(1, 2) { tb.set_metadata(&GeneralTransactionMetadata::new()); }
+        f.set("empty_sub_builders");
+    }
     if g.chance(1, 8) { let d = g.range(1, 5 * ADA); tb.set_donation(&bn(d)); need += d; f.set("donation"); }
     if g.chance(1, 8) { tb.set_current_treasury_value(&bn(g.pos()))?; f.set("current_treasury_value"); }
 
@@ -1595,6 +1668,8 @@ fn tx_scenario(k: u64, f: &mut Feat) -> Result<Transaction, JsError> {
         let mut ib = TxInputsBuilder::new();
         for (addr, input, coin, h) in &explicit {
             let v = value_of(*coin, &pols, h);
+            let v = if degen & 2 != 0 && g.chance(1, 2) { f.set("degenerate_inputs"); degenerate_value(&v, g, &pols) } else { v };
+            f.given.push(v.to_bytes());
             let key = addr.payment_cred().and_then(|c| c.to_keyhash()).expect("key address");
             if via_builder {
                 match g.below(3) {
@@ -1609,7 +1684,12 @@ fn tx_scenario(k: u64, f: &mut Feat) -> Result<Transaction, JsError> {
         let have: u64 = utxos.iter().map(|e| e.2).sum();
         if have < 2 * need + 20 * ADA { utxos.push((g.key_address(), g.tx_in(), 2 * need + 30 * ADA - have, Holdings::new())); }
         let mut list = TransactionUnspentOutputs::new();
-        for (addr, input, coin, h) in &utxos { list.add(&TransactionUnspentOutput::new(input, &TransactionOutput::new(addr, &value_of(*coin, &pols, h)))); }
+        for (addr, input, coin, h) in &utxos {
+            let v = value_of(*coin, &pols, h);
+            let v = if degen & 2 != 0 && g.chance(1, 2) { f.set("degenerate_inputs"); degenerate_value(&v, g, &pols) } else { v };
+            f.given.push(v.to_bytes());
+            list.add(&TransactionUnspentOutput::new(input, &TransactionOutput::new(addr, &v)));
+        }
         let random_ok = cfg!(csl_verif);
         let strat = if outs_have_assets || tb.get_mint_builder().is_some() {
             if random_ok && g.chance(1, 2) { f.set("sel_random_improve_ma"); CoinSelectionStrategyCIP2::RandomImproveMultiAsset } else { f.set("sel_largest_first_ma"); CoinSelectionStrategyCIP2::LargestFirstMultiAsset }
@@ -1625,6 +1705,13 @@ fn tx_scenario(k: u64, f: &mut Feat) -> Result<Transaction, JsError> {
     }
 
     // ---- fee, change, build ----
+    if degen & 32 != 0 && !fixed_fee {
+        let surplus = tb.get_total_input()?.checked_sub(&tb.get_total_output()?)?;
+        let has_assets = surplus.multiasset().map(|m| m.len() > 0).unwrap_or(false);
+        if !has_assets && u64::from(surplus.coin()) >= u64::from(tb.min_fee()?) && u64::from(surplus.coin()) < 60 * ADA {
+            tb.set_fee(&surplus.coin()); f.set("zero_change");
+        }
+    }
     if fixed_fee { let mf = tb.min_fee()?; tb.set_fee(&mf.checked_add(&bn(g.range(100_000, 400_000)))?); f.set("fixed_fee"); }
     let change_addr = g.key_address();
     let explicit_outs = n_out as usize;
@@ -1648,6 +1735,24 @@ fn tx_scenario(k: u64, f: &mut Feat) -> Result<Transaction, JsError> {
             }
         }
     }
+    // where a degenerate entry sits: a requested output (index < explicit_outs), a change output, or the collateral return
+    for i in 0..outs.len() {
+        if let Some(ma) = outs.get(i).amount().multiasset() {
+            let ps = ma.keys(); let mut bad = ma.len() == 0;
+            for j in 0..ps.len() { let a = ma.get(&ps.get(j)).unwrap(); if a.len() == 0 { bad = true; }
+                let ns = a.keys(); for l in 0..ns.len() { if a.get(&ns.get(l)).unwrap().is_zero() { bad = true; } } }
+            if bad { if i < explicit_outs { f.set("OBS_degenerate_in_requested_output"); } else { f.set("OBS_degenerate_in_change_output"); } }
+        }
+    }
+    if let Some(cr) = tx.body().collateral_return() {
+        if let Some(ma) = cr.amount().multiasset() {
+            let ps = ma.keys(); let mut bad = ma.len() == 0;
+            for j in 0..ps.len() { let a = ma.get(&ps.get(j)).unwrap(); if a.len() == 0 { bad = true; }
+                let ns = a.keys(); for l in 0..ns.len() { if a.get(&ns.get(l)).unwrap().is_zero() { bad = true; } } }
+            if bad { f.set("OBS_degenerate_in_collateral_return"); }
+        }
+    }
+    if std::env::var("C03_OBS").is_ok() && f.v.iter().any(|x| x.starts_with("OBS_")) { eprintln!("OBS k={} {}", k, f.line(true)); }
     if n_change > 0 { f.set("change_output"); }
     if n_change > 1 { f.set("change_split_2plus"); }
     if n_change_ma > 0 { f.set("assets_in_change"); }
@@ -1656,6 +1761,13 @@ fn tx_scenario(k: u64, f: &mut Feat) -> Result<Transaction, JsError> {
 }
 
 // ------------------------------------------------------------------------------------------------
+/// CBOR array of already encoded items
+fn cbor_array(items: &[Vec<u8>]) -> Vec<u8> {
+    let n = items.len();
+    let mut v: Vec<u8> = if n < 24 { vec![0x80 + n as u8] } else if n < 256 { vec![0x98, n as u8] } else { vec![0x99, (n >> 8) as u8, n as u8] };
+    for i in items { v.extend_from_slice(i); }
+    v
+}
 fn exec(toks: &[String]) -> String {
     match toks.first().map(|s| s.as_str()) {
         Some("neg") => "neg".to_string(),
@@ -1676,7 +1788,7 @@ fn exec(toks: &[String]) -> String {
             if toks.len() != 3 || toks[1] != "Transaction" { return "harness-badcase".into(); }
             let k: u64 = match toks[2].parse() { Ok(k) => k, Err(_) => return "harness-badcase".into() };
             let mut f = Feat::default();
-            match tx_scenario(k, &mut f) { Ok(t) => format!("ok {}", hex_or_dash(&t.to_bytes())), Err(_) => "builderr".to_string() }
+            match tx_scenario(k, &mut f) { Ok(t) => format!("ok {} {}", hex_or_dash(&t.to_bytes()), hex_or_dash(&cbor_array(&f.given))), Err(_) => "builderr".to_string() }
         }
         _ => "harness-badcase".to_string(),
     }
@@ -1734,7 +1846,7 @@ fn gen(dir: &str) {
         let case = format!("tx Transaction {}", k);
         let res = if stats {
             guarded(move || { let mut f = Feat::default(); let r = tx_scenario(k, &mut f);
-                              format!("{}\u{1}{}", f.line(r.is_ok()), match r { Ok(t) => format!("ok {}", hex_or_dash(&t.to_bytes())), Err(e) => format!("builderr\u{1}{}", e.to_string()) }) })
+                              format!("{}\u{1}{}", f.line(r.is_ok()), match r { Ok(t) => format!("ok {} {}", hex_or_dash(&t.to_bytes()), hex_or_dash(&cbor_array(&f.given))), Err(e) => format!("builderr\u{1}{}", e.to_string()) }) })
         } else { run_line(&case) };
         let res = if stats && res != "panic" {
             let parts: Vec<&str> = res.split('\u{1}').collect();
